@@ -36,10 +36,12 @@ __CPROVER_ensures(__CPROVER_return_value == s || __CPROVER_return_value == (char
 __CPROVER_ensures(g_fgets_ok == (__CPROVER_return_value == s))
 __CPROVER_ensures(__CPROVER_return_value == s ==> (s[0] == g_md5file_line[0] && s[1] == g_md5file_line[1] && s[2] == g_md5file_line[2] && s[3] == g_md5file_line[3] && s[4] == g_md5file_line[4] && s[5] == g_md5file_line[5] && s[6] == g_md5file_line[6] && s[7] == g_md5file_line[7] && s[8] == g_md5file_line[8] && s[9] == g_md5file_line[9] && s[10] == g_md5file_line[10] && s[11] == g_md5file_line[11] && s[12] == g_md5file_line[12] && s[13] == g_md5file_line[13] && s[14] == g_md5file_line[14] && s[15] == g_md5file_line[15] && s[16] == g_md5file_line[16] && s[17] == g_md5file_line[17] && s[18] == g_md5file_line[18] && s[19] == g_md5file_line[19] && s[20] == g_md5file_line[20] && s[21] == g_md5file_line[21] && s[22] == g_md5file_line[22] && s[23] == g_md5file_line[23] && s[24] == g_md5file_line[24] && s[25] == g_md5file_line[25] && s[26] == g_md5file_line[26] && s[27] == g_md5file_line[27] && s[28] == g_md5file_line[28] && s[29] == g_md5file_line[29] && s[30] == g_md5file_line[30] && s[31] == g_md5file_line[31] && s[32] == g_md5file_line[32] && s[33] == g_md5file_line[33] && s[34] == g_md5file_line[34] && s[35] == g_md5file_line[35] && s[36] == g_md5file_line[36] && s[37] == g_md5file_line[37] && s[38] == g_md5file_line[38] && s[39] == g_md5file_line[39] && s[40] == g_md5file_line[40] && s[41] == g_md5file_line[41] && s[42] == g_md5file_line[42] && s[43] == g_md5file_line[43] && s[44] == g_md5file_line[44] && s[45] == g_md5file_line[45] && s[46] == g_md5file_line[46] && s[47] == g_md5file_line[47] && s[48] == g_md5file_line[48] && s[49] == g_md5file_line[49] && s[50] == g_md5file_line[50] && s[51] == g_md5file_line[51] && s[52] == g_md5file_line[52] && s[53] == g_md5file_line[53] && s[54] == g_md5file_line[54] && s[55] == g_md5file_line[55] && s[56] == g_md5file_line[56] && s[57] == g_md5file_line[57] && s[58] == g_md5file_line[58] && s[59] == g_md5file_line[59] && s[60] == g_md5file_line[60] && s[61] == g_md5file_line[61] && s[62] == g_md5file_line[62] && s[63] == g_md5file_line[63] && s[64] == g_md5file_line[64] && s[65] == g_md5file_line[65] && s[66] == g_md5file_line[66] && s[67] == g_md5file_line[67] && s[68] == g_md5file_line[68] && s[69] == g_md5file_line[69] && s[70] == g_md5file_line[70] && s[71] == g_md5file_line[71] && s[72] == g_md5file_line[72] && s[73] == g_md5file_line[73] && s[74] == g_md5file_line[74] && s[75] == g_md5file_line[75] && s[76] == g_md5file_line[76] && s[77] == g_md5file_line[77] && s[78] == g_md5file_line[78] && s[79] == g_md5file_line[79] && s[80] == g_md5file_line[80] && s[81] == g_md5file_line[81] && s[82] == g_md5file_line[82] && s[83] == g_md5file_line[83] && s[84] == g_md5file_line[84] && s[85] == g_md5file_line[85] && s[86] == g_md5file_line[86] && s[87] == g_md5file_line[87] && s[88] == g_md5file_line[88] && s[89] == g_md5file_line[89] && s[90] == g_md5file_line[90] && s[91] == g_md5file_line[91] && s[92] == g_md5file_line[92] && s[93] == g_md5file_line[93] && s[94] == g_md5file_line[94] && s[95] == g_md5file_line[95] && s[96] == g_md5file_line[96] && s[97] == g_md5file_line[97] && s[98] == g_md5file_line[98] && s[99] == g_md5file_line[99] && s[100] == g_md5file_line[100] && s[101] == g_md5file_line[101] && s[102] == g_md5file_line[102] && s[103] == g_md5file_line[103] && s[104] == g_md5file_line[104] && s[105] == g_md5file_line[105] && s[106] == g_md5file_line[106] && s[107] == g_md5file_line[107] && s[108] == g_md5file_line[108] && s[109] == g_md5file_line[109] && s[110] == g_md5file_line[110] && s[111] == g_md5file_line[111] && s[112] == g_md5file_line[112] && s[113] == g_md5file_line[113] && s[114] == g_md5file_line[114] && s[115] == g_md5file_line[115] && s[116] == g_md5file_line[116] && s[117] == g_md5file_line[117] && s[118] == g_md5file_line[118] && s[119] == g_md5file_line[119] && s[120] == g_md5file_line[120] && s[121] == g_md5file_line[121] && s[122] == g_md5file_line[122] && s[123] == g_md5file_line[123] && s[124] == g_md5file_line[124] && s[125] == g_md5file_line[125] && s[126] == g_md5file_line[126] && s[127] == g_md5file_line[127]))
 ;
+_Bool g_bk_closed_ok;   /* ghost: fclose of the backup file succeeded (the buffered data reached the file) */
 int fclose_contract(struct FILE *f)
 __CPROVER_requires(f == &g_f_md5 || f == &g_f_bk)
-__CPROVER_assigns(g_bk_closed)
-__CPROVER_ensures(f == &g_f_bk ==> g_bk_closed)
+__CPROVER_assigns(g_bk_closed, g_bk_closed_ok)
+__CPROVER_ensures(f == &g_f_bk ==> (g_bk_closed && g_bk_closed_ok == (__CPROVER_return_value == 0)))
+__CPROVER_ensures(f != &g_f_bk ==> (g_bk_closed == __CPROVER_old(g_bk_closed) && g_bk_closed_ok == __CPROVER_old(g_bk_closed_ok)))
 ;
 size_t fwrite_contract(const void *ptr, size_t size, size_t nmemb, struct FILE *f)
 __CPROVER_requires(f == &g_f_bk)
@@ -67,12 +69,75 @@ __CPROVER_requires(!g_bk_opened_for_write && !g_bk_closed && g_md5file_line[127]
  * hex digits overflow md5_str_in[33]; fewer than 32 make memcmp read uninitialised bytes of md5_str_in. */
 __CPROVER_requires((g_N == 0 || g_N == 32) && !is_hex(g_md5file_line[g_N]) && !g_fgets_ok)
 __CPROVER_requires((0 < g_N ==> is_hex(g_md5file_line[0])) && (1 < g_N ==> is_hex(g_md5file_line[1])) && (2 < g_N ==> is_hex(g_md5file_line[2])) && (3 < g_N ==> is_hex(g_md5file_line[3])) && (4 < g_N ==> is_hex(g_md5file_line[4])) && (5 < g_N ==> is_hex(g_md5file_line[5])) && (6 < g_N ==> is_hex(g_md5file_line[6])) && (7 < g_N ==> is_hex(g_md5file_line[7])) && (8 < g_N ==> is_hex(g_md5file_line[8])) && (9 < g_N ==> is_hex(g_md5file_line[9])) && (10 < g_N ==> is_hex(g_md5file_line[10])) && (11 < g_N ==> is_hex(g_md5file_line[11])) && (12 < g_N ==> is_hex(g_md5file_line[12])) && (13 < g_N ==> is_hex(g_md5file_line[13])) && (14 < g_N ==> is_hex(g_md5file_line[14])) && (15 < g_N ==> is_hex(g_md5file_line[15])) && (16 < g_N ==> is_hex(g_md5file_line[16])) && (17 < g_N ==> is_hex(g_md5file_line[17])) && (18 < g_N ==> is_hex(g_md5file_line[18])) && (19 < g_N ==> is_hex(g_md5file_line[19])) && (20 < g_N ==> is_hex(g_md5file_line[20])) && (21 < g_N ==> is_hex(g_md5file_line[21])) && (22 < g_N ==> is_hex(g_md5file_line[22])) && (23 < g_N ==> is_hex(g_md5file_line[23])) && (24 < g_N ==> is_hex(g_md5file_line[24])) && (25 < g_N ==> is_hex(g_md5file_line[25])) && (26 < g_N ==> is_hex(g_md5file_line[26])) && (27 < g_N ==> is_hex(g_md5file_line[27])) && (28 < g_N ==> is_hex(g_md5file_line[28])) && (29 < g_N ==> is_hex(g_md5file_line[29])) && (30 < g_N ==> is_hex(g_md5file_line[30])) && (31 < g_N ==> is_hex(g_md5file_line[31])))
-__CPROVER_assigns(g_fgets_ok, g_newpath_kind, g_bk_opened_for_write, g_bk_closed, g_bk_ptr, g_bk_len, g_fwrite_ret, g_bk_written, g_exit_status, errno)
+__CPROVER_assigns(g_fgets_ok, g_newpath_kind, g_bk_opened_for_write, g_bk_closed, g_bk_closed_ok, g_bk_ptr, g_bk_len, g_fwrite_ret, g_bk_written, g_exit_status, errno)
 /* md5 match => EX_OK and the backup is not touched */
 __CPROVER_ensures(MD5_MATCH ==> (__CPROVER_return_value == EX_OK && !g_bk_opened_for_write))
 /* mismatch (or no md5 file) => a normal return means the backup now holds exactly data */
 __CPROVER_ensures(!MD5_MATCH ==> g_bk_opened_for_write)
 __CPROVER_ensures((__CPROVER_return_value == EX_OK && g_bk_opened_for_write) ==>
-                  (g_bk_closed && g_bk_ptr == (const void*)V8_data(data) && g_bk_len == V8_size(data) && (g_bk_written == V8_size(data) || V8_size(data) == 0)))
+                  (g_bk_closed && g_bk_closed_ok /* stdio hands buffered data to the file when the stream is closed: a failed fclose is an incomplete backup */ && g_bk_ptr == (const void*)V8_data(data) && g_bk_len == V8_size(data) && (g_bk_written == V8_size(data) || V8_size(data) == 0)))
 __CPROVER_ensures(__CPROVER_return_value == EX_OK)
 ;
+
+/* ---- backup_create_md5_file (C14-K2): "the accompanying md5 file always describes the content uncrustify last left in the file" ----
+ * the md5 file, when it is written, holds the digest of the WHOLE file: every byte was read and fed to the digest, in order. */
+extern size_t g_src_len, g_src_pos, g_fed, g_last_n;
+extern _Bool g_fed_in_order, g_src_error, g_digest_is_whole, g_md5file_written;
+extern unsigned char g_written_dig[16];
+extern const void *g_last_buf;
+extern struct FILE g_f_src;
+#ifdef MD5FILE_PROOF
+struct FILE *fopen_md5_contract(const char *path, const char *mode)
+__CPROVER_requires(mode[0] == 'r' || (mode[0] == 'w' && g_newpath_kind == 1))
+__CPROVER_assigns()
+__CPROVER_ensures(mode[0] == 'r' ==> (__CPROVER_return_value == &g_f_src || __CPROVER_return_value == (struct FILE*)0))
+__CPROVER_ensures(mode[0] == 'w' ==> (__CPROVER_return_value == &g_f_md5 || __CPROVER_return_value == (struct FILE*)0))
+;
+/* C standard 7.21.8.1: fread returns the number of elements read, which is less than nmemb only at end of file or on a read error */
+size_t fread_contract(void *ptr, size_t size, size_t nmemb, struct FILE *f)
+__CPROVER_requires(f == &g_f_src && size == 1 && nmemb >= 1 && __CPROVER_w_ok(ptr, nmemb) && g_src_pos <= g_src_len)
+__CPROVER_assigns(g_src_pos, g_src_error, g_last_buf, g_last_n, __CPROVER_object_upto(ptr, nmemb))
+__CPROVER_ensures(__CPROVER_return_value <= nmemb && g_src_pos == __CPROVER_old(g_src_pos) + __CPROVER_return_value && g_src_pos <= g_src_len)
+__CPROVER_ensures(g_last_buf == ptr && g_last_n == __CPROVER_return_value)
+__CPROVER_ensures(__CPROVER_old(g_src_error) ==> g_src_error)
+__CPROVER_ensures((__CPROVER_return_value < nmemb && !g_src_error) ==> g_src_pos == g_src_len)
+#ifdef NO_READ_FAULT
+__CPROVER_ensures(!g_src_error)
+#endif
+;
+/* the error indicator of the stream: set exactly when a read failed */
+int ferror_src_contract(struct FILE *f)
+__CPROVER_requires(f == &g_f_src)
+__CPROVER_assigns()
+__CPROVER_ensures((__CPROVER_return_value != 0) == g_src_error)
+;
+void md5_update_contract(const void *data, unsigned len)
+__CPROVER_assigns(g_fed, g_fed_in_order)
+__CPROVER_ensures(g_fed == __CPROVER_old(g_fed) + len)
+__CPROVER_ensures(g_fed_in_order == (__CPROVER_old(g_fed_in_order) && data == g_last_buf && len == g_last_n && __CPROVER_old(g_fed) + len == g_src_pos))
+;
+void md5_final_contract(unsigned char *digest)
+__CPROVER_requires(__CPROVER_w_ok(digest, 16))
+__CPROVER_assigns(g_digest_is_whole, __CPROVER_object_upto(digest, 16))
+__CPROVER_ensures(g_digest_is_whole == (g_fed_in_order && g_fed == g_src_len))
+/* the digest of the whole content is g_md5; the digest of anything else is arbitrary */
+__CPROVER_ensures(g_digest_is_whole ==> (digest[0] == g_md5[0] && digest[1] == g_md5[1] && digest[2] == g_md5[2] && digest[3] == g_md5[3] && digest[4] == g_md5[4] && digest[5] == g_md5[5] && digest[6] == g_md5[6] && digest[7] == g_md5[7]
+                                        && digest[8] == g_md5[8] && digest[9] == g_md5[9] && digest[10] == g_md5[10] && digest[11] == g_md5[11] && digest[12] == g_md5[12] && digest[13] == g_md5[13] && digest[14] == g_md5[14] && digest[15] == g_md5[15]))
+;
+void write_md5_line_contract(struct FILE *f, unsigned d0, unsigned d1, unsigned d2, unsigned d3, unsigned d4, unsigned d5, unsigned d6, unsigned d7,
+                             unsigned d8, unsigned d9, unsigned d10, unsigned d11, unsigned d12, unsigned d13, unsigned d14, unsigned d15)
+__CPROVER_requires(f == &g_f_md5)
+__CPROVER_assigns(g_md5file_written, __CPROVER_object_whole(g_written_dig))
+__CPROVER_ensures(g_md5file_written && g_written_dig[0] == d0 && g_written_dig[1] == d1 && g_written_dig[2] == d2 && g_written_dig[3] == d3 && g_written_dig[4] == d4 && g_written_dig[5] == d5 && g_written_dig[6] == d6 && g_written_dig[7] == d7
+                  && g_written_dig[8] == d8 && g_written_dig[9] == d9 && g_written_dig[10] == d10 && g_written_dig[11] == d11 && g_written_dig[12] == d12 && g_written_dig[13] == d13 && g_written_dig[14] == d14 && g_written_dig[15] == d15)
+;
+int fclose_md5_contract(struct FILE *f) __CPROVER_requires(f == &g_f_src || f == &g_f_md5) __CPROVER_assigns() __CPROVER_ensures(1) ;
+void backup_create_md5_file_contract(const char *filename)
+__CPROVER_requires(__CPROVER_is_fresh(filename, 1) && g_src_pos == 0 && g_src_len < (1UL << 40) && !g_src_error && !g_md5file_written)
+__CPROVER_assigns(g_src_pos, g_src_error, g_last_buf, g_last_n, g_fed, g_fed_in_order, g_digest_is_whole, g_md5file_written, __CPROVER_object_whole(g_written_dig), g_newpath_kind, g_exit_status, errno)
+/* whatever reaches the md5 file is the digest of the whole file */
+__CPROVER_ensures(g_md5file_written ==> (g_digest_is_whole && g_written_dig[0] == g_md5[0] && g_written_dig[1] == g_md5[1] && g_written_dig[2] == g_md5[2] && g_written_dig[3] == g_md5[3] && g_written_dig[4] == g_md5[4]
+                                          && g_written_dig[5] == g_md5[5] && g_written_dig[6] == g_md5[6] && g_written_dig[7] == g_md5[7] && g_written_dig[8] == g_md5[8] && g_written_dig[9] == g_md5[9] && g_written_dig[10] == g_md5[10]
+                                          && g_written_dig[11] == g_md5[11] && g_written_dig[12] == g_md5[12] && g_written_dig[13] == g_md5[13] && g_written_dig[14] == g_md5[14] && g_written_dig[15] == g_md5[15]))
+;
+#endif
